@@ -1,0 +1,52 @@
+//! Verification hooks, only compiled with `--cfg libp2p_verif`.
+//!
+//! Visibility shims onto the crate-private receive/parse path, the handler's acceptance test and
+//! the behaviour's listen-address filter. Nothing in here has logic of its own.
+
+use std::{collections::HashSet, sync::Arc, time::Duration};
+
+use futures::{AsyncRead, AsyncWrite};
+use libp2p_core::Multiaddr;
+use libp2p_identity::{PeerId, PublicKey};
+
+pub use crate::{
+    handler::Handler,
+    protocol::{Info, PushInfo, UpgradeError},
+};
+
+/// `protocol::recv_identify`: read one length-prefixed `Identify` message and convert it to
+/// [`Info`].
+pub async fn recv_identify<T>(socket: T) -> Result<Info, UpgradeError>
+where
+    T: AsyncRead + AsyncWrite + Unpin,
+{
+    crate::protocol::recv_identify(socket).await
+}
+
+/// `protocol::recv_push`: read one length-prefixed `Identify` message and convert it to
+/// [`PushInfo`].
+pub async fn recv_push<T>(socket: T) -> Result<PushInfo, UpgradeError>
+where
+    T: AsyncRead + AsyncWrite + Unpin,
+{
+    crate::protocol::recv_push(socket).await
+}
+
+/// `behaviour::multiaddr_matches_peer_id`.
+pub fn multiaddr_matches_peer_id(addr: &Multiaddr, peer_id: &PeerId) -> bool {
+    crate::behaviour::verif_multiaddr_matches_peer_id(addr, peer_id)
+}
+
+/// A handler for a connection to `remote_peer_id` (the acceptance test is reachable through
+/// [`Handler::verif_handle_incoming_info`]).
+pub fn new_handler(remote_peer_id: PeerId, local_key: PublicKey) -> Handler {
+    Handler::new(
+        Duration::from_secs(3600),
+        remote_peer_id,
+        Arc::new(local_key.into()),
+        String::new(),
+        String::new(),
+        Multiaddr::empty(),
+        HashSet::new(),
+    )
+}
